@@ -23,10 +23,13 @@ TEXT = {
     "C13.sentinel": "in isPendingExit / isPendingChange every comparison with compoRequested that can make the answer true excludes compoRequested == INVALID_PRONG "
                     "(while nothing is pending all three are false)",
     "C13.facade": "GuardControlT / R_ / ControlT / ConstControlT query members forward to the same-named RegistryT member with their own argument",
+    "C13.visible-order": "C_::deepEnter stores the region's active prong (and clears the pending one) before it invokes any callback (HeadState::deepEnter, "
+                         "SubStates::wideEnter): inside enter() of a region head the region is active *and* has its active sub-state; O_::deepEnter likewise "
+                         "has nothing to store after its first callback",
     "C13.resume-path": "C_::deepRequestResume stores `resumable != INVALID ? resumable : 0` read from compoResumable[COMPO_INDEX] and the CS_ dispatchers hand it "
                        "down to the same-named member (shared with C02/C03 rule instances)",
 }
-MIN_INSTANCES = {"C13.siblings": 6, "C13.fields": 6, "C13.sentinel": 2, "C13.facade": 12, "C13.resume-path": 20}
+MIN_INSTANCES = {"C13.visible-order": 1, "C13.siblings": 6, "C13.fields": 6, "C13.sentinel": 2, "C13.facade": 12, "C13.resume-path": 20}
 
 QUERIES = ("activeSubState", "isActive", "isResumable", "isPendingEnter", "isPendingChange", "isPendingExit")
 
@@ -89,8 +92,32 @@ def query_atoms(F, b):
     return out
 
 
+def check_visible_order(ctx, F):
+    from .common import regfield, paths_of
+    for fid, b in insts(F, "C_", {"deepEnter"}):
+        site = "C_::deepEnter"
+        bad = None
+        for p in paths_of(ctx, F, fid):
+            first_cb = None
+            last_w = None
+            for i, ev in enumerate(p):
+                if ev[0] == "call" and ev[2] is not None and F.fn(ev[2]).get("cls") in ("S_", "CS_", "C_", "O_", "OS_") and F.fn(ev[2])["name"].startswith(("deep", "wide")) and first_cb is None:
+                    first_cb = (i, F.fn(ev[2])["name"])
+                if ev[0] == "write":
+                    r = regfield(ev[2])
+                    if r and r[0] in ("compoActive", "compoRequested", "compoResumable"):
+                        last_w = (i, r[0])
+            if first_cb and last_w and last_w[0] > first_cb[0]:
+                bad = "registry.%s is stored after the callback %s has run: inside enter() of the region head the queries see the region active without an " \
+                      "active sub-state" % (last_w[1], first_cb[1])
+        ctx.instance("C13.visible-order", site, {"function": site, "loc": F.floc(fid)})
+        if bad:
+            ctx.violation("C13.visible-order", site, "%s (%s)" % (site, F.floc(fid)), bad, {})
+
+
 def check(ctx, F):
     _FN["F"] = F
+    check_visible_order(ctx, F)
     per = {}
     for fid, b in insts(F, "RegistryT", set(QUERIES)):
         if b["name"] == "isActive" and not b.get("params"):
